@@ -400,6 +400,9 @@ def r_every_input_compiled(r, prog):
     r.floor(2)
 
 
+import decisions
+
+
 def run(ctx):
     prog = ctx.prog
     ctx.run_rule('C07.1a', 'T1', 'process/file effects only in the two generator functions', r_effect_sites, prog)
@@ -411,6 +414,7 @@ def run(ctx):
     ctx.run_rule('C07.4a', 'T2', 'compilation phases run only through apply/apply_unsafe on the no-errors edge', gating.r_phase_gating, prog)
     from props import c18 as _c18
     ctx.run_rule('C07.3c', 'T2', 'a generator that exits non-zero, is killed or writes to stderr is a failure whatever it printed (it becomes an error diagnostic, hence a non-zero exit status)', _c18.r_only_decoded_reply_trusted, prog)
+    ctx.run_rule('C07.4f', 'T2', 'every reported diagnostic is recorded (no cap, no filter in push_into / extend)', decisions.r_container_records_everything, prog)
     ctx.run_rule('C07.4e', 'T2', 'the entry points compile every input unless reading the inputs recorded an error', r_every_input_compiled, prog)
     ctx.run_rule('C07.4b', 'T1', 'has_errors() inspects kind, not level', r_has_errors_reads_kind, prog)
     ctx.run_rule('C07.4c', 'T1', 'level Error is carried exactly by Error kinds (exit status and gating agree)', levels.r_level_error_only_for_error_kind, prog)
